@@ -70,6 +70,9 @@ def run(F, R):
     from . import C08 as _c8b
     guard(R, 'K15', 'feature-bits', lambda: _c8b.h2_constants(F, RuleProxy(R, {'H2': 'K15'}, only=lambda inst: 'blk' in inst.lower())))
     guard(R, 'K15', 'gated', lambda: _c8b.h4_gated(F, RuleProxy(R, {'H4': 'K15'}, only=lambda inst: 'VirtIOBlk' in inst), M))
+    # K16: a blocking request waits for its completion whether or not a notification was needed (device polling with notifications
+    # suppressed): pop only after the completion test reported ready (C03.E17)
+    guard(R, 'K16', 'helper-waits', lambda: _c3.e17_helper_waits(F, R, M, roles, rule='K16'))
     # K14: a blocking request behind an unconsumed non-blocking completion pops its own token (C03.E8)
     guard(R, 'K14', 'helper-token', lambda: _c3.e8_helper_token(F, R, M, roles, rule='K14'))
     # K10: with several requests outstanding a further request is refused when the descriptors it needs are not free -
